@@ -368,9 +368,9 @@ def _fix_labels(rng, items):
 def gen_cases(rng, tier):
     cases = [{"kind": "file", "path": p} for p in shipped_files()]
     if tier == "quick":
-        n_v2src, n_v2ast, n_v1src, n_v1items, depth = 350, 3000, 500, 3000, 4
+        n_v2src, n_v2ast, n_v1src, n_v1items, depth = 900, 5000, 1500, 5000, 4
     else:
-        n_v2src, n_v2ast, n_v1src, n_v1items, depth = 6000, 100000, 8000, 100000, 6
+        n_v2src, n_v2ast, n_v1src, n_v1items, depth = 8000, 100000, 12000, 100000, 6
     for _ in range(n_v2src):
         cases.append({"kind": "v2src", "src": gen_v2_src(rng, rng.randrange(1, depth + 1))})
     for _ in range(n_v2ast):
